@@ -230,18 +230,29 @@ def finish (now : Nat) (st : HostSt) (ms : List Msg) (sc : Scope) (r : TokRes) :
         ms, some ⟨st.host, .access, pickToken token access⟩)
   | _ => (st, ms, none)
 
+-- F39: `requestableScope`: the part of a scope that can be named in a token
+-- request. An unlimited scope has none (`Scope{}`); a limited scope is itself.
+/-- `requestableScope`. -/
+def requestable (s : Scope) : Scope := if s.unlimited then Scope.empty else s
+
+-- F39: the request is formed from the requestable parts of both scopes, the retry
+-- after a 401 asks for the requestable part of `first`, and the token is recorded
+-- under the scope that was requested (before: `union first second` / `first`, which
+-- is the unlimited scope, printed "*", as soon as one of them is unlimited).
 /-- `acquireAccessToken(ctx, first, second)` with `r.wwwAuthenticate = ch`:
 new state, token requests made, and the access token (`none`: an error). -/
 def acquireAccessToken (env : Env) (now : Nat) (st : HostSt) (ch : Chal) (phase : Nat)
     (first second : Scope) : HostSt × List Msg × Option Atom :=
-  if (acquireToken env st ch phase 0 (union first second)).2 = .httpErr 401 then
+  if (acquireToken env st ch phase 0 (union (requestable first) (requestable second))).2 = .httpErr 401 then
     -- the server may be refusing the wide scope: ask for `first` alone
     finish now st
-      ((acquireToken env st ch phase 0 (union first second)).1 ++ (acquireToken env st ch phase 1 first).1)
-      first (acquireToken env st ch phase 1 first).2
+      ((acquireToken env st ch phase 0 (union (requestable first) (requestable second))).1 ++
+        (acquireToken env st ch phase 1 (requestable first)).1)
+      (requestable first) (acquireToken env st ch phase 1 (requestable first)).2
   else
-    finish now st (acquireToken env st ch phase 0 (union first second)).1 (union first second)
-      (acquireToken env st ch phase 0 (union first second)).2
+    finish now st (acquireToken env st ch phase 0 (union (requestable first) (requestable second))).1
+      (union (requestable first) (requestable second))
+      (acquireToken env st ch phase 0 (union (requestable first) (requestable second))).2
 
 /-- `deleteExpiredTokens(time.Now().UTC().Add(time.Second))` on the state. -/
 def prune (now : Nat) (st : HostSt) : HostSt :=
@@ -281,7 +292,9 @@ def section2 (env : Env) (now : Nat) (st : HostSt) (ch : Chal) (req : ReqInfo) :
     HostSt × List Msg × Sec2 :=
   match ch.scheme with
   | .bearer =>
-    match acquireAccessToken env now (setChallenge st ch) ch 1 (parseScope ch.scope) (union req.want req.required) with
+    -- F39: `requestableScope(wantScope).Union(requestableScope(requiredScope))`
+    match acquireAccessToken env now (setChallenge st ch) ch 1 (parseScope ch.scope)
+        (union (requestable req.want) (requestable req.required)) with
     | (st1, ms, some a) => (st1, ms, .added (.bearer a) true)
     | (st1, ms, none) => (st1, ms, .error)
   | .basic =>
